@@ -508,7 +508,11 @@ func (g *rawGen) clean() rawEv {
 	}
 	opts = append(opts, opt(53, mt))
 	if r.Intn(2) == 0 {
-		opts = append(opts, opt(55, 1, 3, 6, 15, 121, 33))
+		prl := []byte{1, 3, 6, 15, 121, 33}
+		if r.Intn(2) == 0 { // any order: the reply's option order follows it, the subnet mask must still come first
+			r.Shuffle(len(prl), func(i, j int) { prl[i], prl[j] = prl[j], prl[i] })
+		}
+		opts = append(opts, opt(55, prl...))
 	}
 	if r.Intn(3) == 0 {
 		opts = append(opts, opt(12, []byte("host-"+strconv.Itoa(r.Intn(9)))...))
